@@ -669,7 +669,8 @@ pub fn build_default_config(conf: &crate::config::Config, request: &DHCPRequest)
                 let mut ret = config::Policy {
                     match_subnet: Some(subnet),
                     apply_address: Some(
-                        (1..((1 << (32 - p4.prefixlen)) - 1))
+                        /* Every host offset except the network (0) and broadcast (all ones). */
+                        (1..u32::MAX.checked_shr(p4.prefixlen.into()).unwrap_or(0))
                             .map(|offset| (u32::from(subnet.network()) + offset).into())
                             // TODO: This removes one IP from the list, it should also remove any
                             // others found on the local machine.  Probably fine for now, but
